@@ -160,6 +160,15 @@ IsListRef(val) == val.k \in {"RangeListRef", "LocationListRef"}
 ListOf(val) == IF "list" \in DOMAIN val THEN val.list
                ELSE IF val.k = "RangeListRef" THEN <<LW!Ent("se", Nat8(16), Nat8(32 + ToNat(val.v)), <<>>)>>
                ELSE <<LW!Ent("se", Nat8(16), Nat8(32 + ToNat(val.v)), <<80 + ToNat(val.v)>>)>>
+(* A location list entry may carry ref = [u, e]: its expression is the bytes d  *)
+(* followed by DW_OP_call_ref to that entry (a DebugInfoRef::Entry fix-up in    *)
+(* .debug_loc / .debug_loclists, patched after all units are written).          *)
+ExpandRefs(L, enc, cx, be) ==
+    [i \in DOMAIN L |->
+        IF "ref" \in DOMAIN L[i]
+        THEN LW!Ent(L[i].k, L[i].a, L[i].b,
+                    L[i].d \o <<154>> \o Flat(FInt(cx.infooff[L[i].ref.u][L[i].ref.e], enc.word), be))
+        ELSE L[i]]
 TabAddList(tab, L) == IF \E i \in DOMAIN tab : tab[i] = L THEN tab ELSE Append(tab, L)
 LEnc(enc, be) == [ver |-> enc.version, asz |-> enc.asz, fmt |-> IF enc.word = 8 THEN 64 ELSE 32, le |-> ~be]
 (* the root's DW_AT_low_pc as the list writer / reader see it *)
@@ -304,7 +313,7 @@ Meaning(val, enc, pos, u, cx, be) ==
       [] k = "DebugMacinfoRef" -> [macinfo |-> val.v]
       [] k = "DebugMacroRef" -> [macro |-> val.v]
       [] k = "LineProgramRef" -> [line |-> "own"]
-      [] k = "LocationListRef" -> LET m == LW!Meaning(ListOf(val), cx.lenc, cx.lp, "loc") IN
+      [] k = "LocationListRef" -> LET m == LW!Meaning(ExpandRefs(ListOf(val), enc, cx, be), cx.lenc, cx.lp, "loc") IN
                                   [loclist |-> [i \in DOMAIN m |-> [b |-> m[i].begin, e |-> m[i].end, expr |-> m[i].d]]]
       [] k = "RangeListRef" -> LET m == LW!Meaning(ListOf(val), cx.lenc, cx.lp, "rng") IN
                                [ranges |-> [i \in DOMAIN m |-> [b |-> m[i].begin, e |-> m[i].end]]]
